@@ -22,6 +22,9 @@ var fieldAlias sync.Map // *types.Var -> canonical field name
 
 func (p *Prog) resolveRoles() {
 	p.roleFn = map[string]*ssa.Function{}
+	for k, v := range p.preRole {
+		p.roleFn[k] = v
+	}
 	p.roleField = map[string]*types.Var{}
 	route := p.SSA["route"]
 	flame := p.SSA["flamego"]
@@ -61,6 +64,9 @@ func (p *Prog) resolveRoles() {
 	bind := func(key string, declared *ssa.Function, cands []*ssa.Function, alias string) {
 		if declared != nil {
 			p.roleFn[key] = declared
+			return
+		}
+		if p.roleFn[key] != nil {
 			return
 		}
 		if len(cands) == 1 {
